@@ -22,7 +22,7 @@ def run(ctx: Ctx) -> int:
     from lib.core import Obligation
     nb = 31          # bodies 0..30 are the main corpus, body 31 lies inside the known finding
     for b in range(nb):
-        jobs.append(Job(H2, "h_same", timeout=ctx.pick(300, 900), name=f"h_same[body {b}]", env={"VERIF_C21_BATCH": str(b)}))
+        jobs.append(Job(H2, "h_same", timeout=ctx.pick(600, 1200), name=f"h_same[body {b}]", env={"VERIF_C21_BATCH": str(b)}))
     KEY_N = "C21:python-int-argument-for-nat-parameter"
     jobs.append(Job(H2, "h_same", timeout=ctx.pick(200, 600), name="h_same[region python-int-argument-for-nat-parameter]", role=f"finding:{KEY_N}",
                     env={"VERIF_C21_BATCH": ",".join(map(str, range(nb + 1))), "VERIF_C21_REGION": "python-int-argument-for-nat-parameter"}))
@@ -32,7 +32,7 @@ def run(ctx: Ctx) -> int:
     ctx.bounds["bodies"] = ("31 bodies (arithmetic and bitwise operators with constants on either side, mixed int / float, comparisons and & | ^ on bools, calls of opaque and of Guppy functions, tuples, "
                             "nested tuples, tuple returns incl. a 1-tuple, unrolled Python loops, arrays: construction, element reads / stores / augmented stores, arrays lent to borrowing functions "
                             "(with element copies read before the call, with plain Python constants inside, rows of arrays of arrays, an array inside a tuple), structs, int() / float() / abs() / len(), "
-                            "equal-but-differently-typed constants, signed zeros, a traced nat next to Python int constants); x in [-3, 4], |y| <= 1000, |opaque results| <= 1000 (symbolic); for the 8 bodies with bitwise / shift / power / float arithmetic x and y are enumerated by the solver over [-3, 4] x [-8, 8]")
+                            "equal-but-differently-typed constants, signed zeros, a traced nat next to Python int constants); x in [-3, 4], |y| <= 1000, |opaque results| <= 1000 (symbolic); for the 8 bodies with bitwise / shift / power / float arithmetic x and y are enumerated by the solver over [-3, 4] x [-4, 4]")
     ctx.crosshair(jobs)
     rep = {"unsupported": {}, "paths_outside": {}, "lowered_both": 0, "bodies": 0, "guppy_side_not_lowered": []}
     import glob
